@@ -1,2 +1,277 @@
--- stub driver, replaced by the builder of X06
-def main : IO Unit := pure ()
+import PyramidModel.Prelude
+import PyramidModel.Rx
+import PyramidModel.Predicates
+/-! Driver for X06: one JSON case per line.  Text t = list of code points.
+ENV  {"ucd":{"word":t,"digit":t,"space":t}, "rx":[[t, RX],…], "fns":[FN,…]}
+     RX = the wire form of C01/C06 (["chr",c] ["any"] ["all"] ["eps"] ["set",neg,[ITEM…]] ["esc",k,neg] ["seq",a,b] ["alt",a,b]
+          ["rep",greedy,min,max|null,body]); `re.compile(text)` = the tree whose `Rx.print` is the text, else re.error
+     FN = ["const",bool] | ["method",t] | ["xhr"] | ["hasmatch",t]
+VAL  {"b":bool} | {"one":t} | {"many":[t…]} | {"tag":n,"str":t} | {"cust":{"hash":int,"text":t,"fn":n}}
+     | {"auth":true|false|null|{"i":int}} | {"pat":[["lit",t]|["ph",t],…]}
+NODE {"name":["absent"]|["none"]|["text",t],"tags":[n…]}      DICT [[t,["s",t]|["t",[t…]]],…]
+CTX  {"lineage":[NODE…],"has_traverse":bool,"match":DICT}
+REQ  {"method":t,"upath":t,"get":[[t,t]…],"post":[[t,t]…],"environ":[[t,t]…],"accept":null|[[t,t,n]…],"context":null|[NODE…],
+      "ifaces":[n…],"matchdict":null|DICT,"is_auth":bool,"principals":[t…]}
+in : {"op":"parse","p":t}                              out {"k":t,"v":null|t}
+     {"op":"sorted","v":[t…]}                          out {"sorted":[t…]}
+     {"op":"pred","env":ENV,"f":name,"val":VAL,"not":n,"ctx":CTX,"req":REQ}
+          out {"err":E} | {"text":t,"phash":t,"call":{"ok":[bool,CTX]}|{"err":E}}
+     {"op":"make","env":ENV,"ordered":[[t,name]…],"kw":[[t, null | {"v":VAL,"not":bool} | {"seq":[{"v":VAL,"not":bool}…]}]…],
+      "ctx":CTX,"req":REQ}
+          out {"err":E} | {"order":int,"pre":t,"texts":[t…],"phashes":[t…],"eval":{"ok":[bool,CTX,called,[fn…]]}|{"err":E}}
+E = "ConfigurationError" | "ValueError" | "KeyError" | "AttributeError" | "UnicodeEncodeError" | "outside:…" -/
+open Pyr Pyr.Rx Pyr.Pred Lean
+
+namespace DrvX06
+
+def textOf (j : Json) : Except String Text := do
+  let cs : List Nat ← fromJson? j
+  pure (cs.map Char.ofNat)
+
+def jText (t : Text) : Json := toJson (t.map Char.toNat)
+
+def arrOf (j : Json) : Except String (List Json) :=
+  match j with
+  | .arr xs => pure xs.toList
+  | _ => throw "expected a list"
+
+def textsOf (j : Json) : Except String (List Text) := do (← arrOf j).mapM textOf
+
+def jChar (j : Json) : Except String Char := do
+  let n : Nat ← fromJson? j
+  pure (Char.ofNat n)
+
+def jEsc (j : Json) : Except String Esc :=
+  match j with
+  | .str "d" => pure .d
+  | .str "w" => pure .w
+  | .str "s" => pure .s
+  | _ => throw "bad esc"
+
+def jItem (j : Json) : Except String CItem :=
+  match j with
+  | .arr #[.str "c", c] => do pure (.ch (← jChar c))
+  | .arr #[.str "r", a, b] => do pure (.range (← jChar a) (← jChar b))
+  | .arr #[.str "e", k] => do pure (.esc (← jEsc k))
+  | _ => throw "bad class item"
+
+def jBool (j : Json) : Except String Bool := fromJson? j
+
+partial def jRx (j : Json) : Except String Rx :=
+  match j with
+  | .arr #[.str "eps"] => pure .eps
+  | .arr #[.str "any"] => pure .any
+  | .arr #[.str "all"] => pure .all
+  | .arr #[.str "chr", c] => do pure (.chr (← jChar c))
+  | .arr #[.str "set", n, .arr items] => do pure (.set (← jBool n) (← items.toList.mapM jItem))
+  | .arr #[.str "esc", k, n] => do pure (.esc (← jEsc k) (← jBool n))
+  | .arr #[.str "seq", a, b] => do pure (.seq (← jRx a) (← jRx b))
+  | .arr #[.str "alt", a, b] => do pure (.alt (← jRx a) (← jRx b))
+  | .arr #[.str "rep", g, m, n, r] => do
+    let mx : Option Nat ← (match n with | .null => pure none | n => do let k : Nat ← fromJson? n; pure (some k))
+    let mn : Nat ← fromJson? m
+    pure (.rep (← jBool g) mn mx (← jRx r))
+  | _ => throw "bad rx"
+
+def pairOf (j : Json) : Except String (Text × Text) :=
+  match j with
+  | .arr #[a, b] => do pure (← textOf a, ← textOf b)
+  | _ => throw "bad pair"
+
+def pairsOf (j : Json) : Except String (List (Text × Text)) := do (← arrOf j).mapM pairOf
+
+def mvalOf (j : Json) : Except String MVal :=
+  match j with
+  | .arr #[.str "s", t] => do pure (.str (← textOf t))
+  | .arr #[.str "t", ts] => do pure (.segs (← textsOf ts))
+  | _ => throw "bad matchdict value"
+
+def dictOf (j : Json) : Except String Dict := do
+  (← arrOf j).mapM fun e =>
+    match e with
+    | .arr #[k, v] => do pure (← textOf k, ← mvalOf v)
+    | _ => throw "bad dict item"
+
+def nodeOf (j : Json) : Except String Node := do
+  let tags : List Nat ← getAs j "tags"
+  let name ← match (← getField j "name") with
+    | .arr #[.str "absent"] => pure NameAttr.absent
+    | .arr #[.str "none"] => pure NameAttr.none
+    | .arr #[.str "text", t] => do pure (NameAttr.text (← textOf t))
+    | _ => throw "bad name"
+  pure ⟨name, tags⟩
+
+def nodesOf (j : Json) : Except String (List Node) := do (← arrOf j).mapM nodeOf
+
+def ctxOf (j : Json) : Except String Ctx := do
+  pure ⟨← nodesOf (← getField j "lineage"), ← getAs j "has_traverse", ← dictOf (← getField j "match")⟩
+
+def rangeOf (j : Json) : Except String Range :=
+  match j with
+  | .arr #[a, b, q] => do
+    let n : Nat ← fromJson? q
+    pure ⟨← textOf a, ← textOf b, n⟩
+  | _ => throw "bad range"
+
+def reqOf (j : Json) : Except String Req := do
+  let accept ← match (← getField j "accept") with
+    | .null => pure none
+    | a => do pure (some (← (← arrOf a).mapM rangeOf))
+  let context ← match (← getField j "context") with
+    | .null => pure none
+    | a => do pure (some (← nodesOf a))
+  let matchdict ← match (← getField j "matchdict") with
+    | .null => pure none
+    | a => do pure (some (← dictOf a))
+  let ifaces : List Nat ← getAs j "ifaces"
+  pure { method := ← textOf (← getField j "method"), upath := ← textOf (← getField j "upath"),
+         get := ← pairsOf (← getField j "get"), post := ← pairsOf (← getField j "post"),
+         environ := ← pairsOf (← getField j "environ"), accept, context, ifaces, matchdict,
+         isAuth := ← getAs j "is_auth", principals := ← textsOf (← getField j "principals") }
+
+def fnOf (j : Json) : Except String (Ctx → Req → Bool) :=
+  match j with
+  | .arr #[.str "const", b] => do let v ← jBool b; pure fun _ _ => v
+  | .arr #[.str "method", t] => do let m ← textOf t; pure fun _ r => r.method == m
+  | .arr #[.str "xhr"] => pure fun _ r => isXhr r
+  | .arr #[.str "hasmatch", t] => do let k ← textOf t; pure fun c _ => (dictGet c.match_ k).isSome
+  | _ => throw "bad fn"
+
+def envOf (j : Json) : Except String Env := do
+  let uj ← getField j "ucd"
+  let u : Ucd := ⟨← textOf (← getField uj "word"), ← textOf (← getField uj "digit"), ← textOf (← getField uj "space")⟩
+  let rxs ← (← arrOf (← getField j "rx")).mapM fun e =>
+    match e with
+    | .arr #[t, r] => do
+      let txt ← textOf t
+      let rx ← jRx r
+      if Rx.print rx ≠ txt then throw "rx: the printed tree is not the text"
+      if !Rx.ok rx then throw "rx: outside the fragment"
+      pure (txt, rx)
+    | _ => throw "bad rx entry"
+  let fns ← (← arrOf (← getField j "fns")).mapM fnOf
+  pure { re := fun t => (rxs.find? (·.1 == t)).map (·.2), ucd := u,
+         fns := fun i c r => match fns[i]? with | some f => f c r | none => false }
+
+def tokOf (j : Json) : Except String TTok :=
+  match j with
+  | .arr #[.str "lit", t] => do pure (.lit (← textOf t))
+  | .arr #[.str "ph", t] => do pure (.ph (← textOf t))
+  | _ => throw "bad traverse token"
+
+def valOf (j : Json) : Except String Val := do
+  if let .ok b := j.getObjVal? "b" then return .bool (← jBool b)
+  if let .ok t := j.getObjVal? "one" then return .txt (.one (← textOf t))
+  if let .ok ts := j.getObjVal? "many" then return .txt (.many (← textsOf ts))
+  if let .ok n := j.getObjVal? "tag" then
+    let k : Nat ← fromJson? n
+    return .tag k (← textOf (← getField j "str"))
+  if let .ok c := j.getObjVal? "cust" then
+    let h : Int ← getAs c "hash"
+    let f : Nat ← getAs c "fn"
+    return .cust ⟨h, ← textOf (← getField c "text"), f⟩
+  if let .ok a := j.getObjVal? "auth" then
+    match a with
+    | .null => return .auth .none
+    | .bool b => return .auth (.bool b)
+    | o => do
+      let i : Int ← getAs o "i"
+      return .auth (.int i)
+  if let .ok p := j.getObjVal? "pat" then return .pat (← (← arrOf p).mapM tokOf)
+  throw "bad value"
+
+def factoryOf (s : String) : Except String Factory :=
+  match s with
+  | "xhr" => pure .xhr | "request_method" => pure .method | "path_info" => pure .pathInfo
+  | "request_param" => pure .reqParam | "header" => pure .header | "accept" => pure .accept
+  | "containment" => pure .containment | "request_type" => pure .reqType | "match_param" => pure .matchParam
+  | "custom" => pure .custom | "traverse" => pure .traverse | "physical_path" => pure .physPath
+  | "is_authenticated" => pure .isAuth | "effective_principals" => pure .effPrin
+  | _ => throw s!"unknown factory {s}"
+
+def errJson : Err → Json
+  | .configError => "ConfigurationError"
+  | .valueError => "ValueError"
+  | .keyError => "KeyError"
+  | .attributeError => "AttributeError"
+  | .unicodeEncode => "UnicodeEncodeError"
+  | .outside w => Json.str ("outside:" ++ String.ofList w)
+
+def jMVal : MVal → Json
+  | .str t => Json.arr #["s", jText t]
+  | .segs ts => Json.arr #["t", Json.arr (ts.map jText).toArray]
+
+def jDict (d : Dict) : Json := Json.arr (d.map fun (k, v) => Json.arr #[jText k, jMVal v]).toArray
+
+def jNode (n : Node) : Json :=
+  Json.mkObj [("name", match n.name with
+                | .absent => Json.arr #["absent"] | .none => Json.arr #["none"] | .text t => Json.arr #["text", jText t]),
+              ("tags", toJson n.tags)]
+
+def jCtx (c : Ctx) : Json :=
+  Json.mkObj [("lineage", Json.arr (c.lineage.map jNode).toArray), ("has_traverse", toJson c.hasTraverse), ("match", jDict c.match_)]
+
+def custFn : Pred → Option Nat
+  | .custom c => some c.fn
+  | .notted p => custFn p
+  | _ => none
+
+def kwValOf (j : Json) : Except String KwVal := do
+  let one (e : Json) : Except String (Bool × Val) := do
+    pure (← getAs e "not", ← valOf (← getField e "v"))
+  match j with
+  | .null => pure none
+  | o =>
+    match o.getObjVal? "seq" with
+    | .ok s => do pure (some (← (← arrOf s).mapM one))
+    | .error _ => do pure (some [← one o])
+
+def main : IO Unit := jsonDriver fun j => do
+  let op : String ← getAs j "op"
+  match op with
+  | "parse" =>
+    let (k, v) := parseParam (← textOf (← getField j "p"))
+    pure (Json.mkObj [("k", jText k), ("v", match v with | none => Json.null | some t => jText t)])
+  | "sorted" =>
+    pure (Json.mkObj [("sorted", Json.arr ((sortT (← textsOf (← getField j "v"))).map jText).toArray)])
+  | "pred" =>
+    let E ← envOf (← getField j "env")
+    let f ← factoryOf (← getAs j "f")
+    let v ← valOf (← getField j "val")
+    let k : Nat ← getAs j "not"
+    let c ← ctxOf (← getField j "ctx")
+    let r ← reqOf (← getField j "req")
+    match construct E f v with
+    | .error e => pure (Json.mkObj [("err", errJson e)])
+    | .ok p0 =>
+      let p := nest k p0
+      let res := match call E p c r with
+        | .error e => Json.mkObj [("err", errJson e)]
+        | .ok (b, c') => Json.mkObj [("ok", Json.arr #[toJson b, jCtx c'])]
+      pure (Json.mkObj [("text", jText (text p)), ("phash", jText (phash p)), ("call", res)])
+  | "make" =>
+    let E ← envOf (← getField j "env")
+    let ordered ← (← arrOf (← getField j "ordered")).mapM fun e =>
+      match e with
+      | .arr #[n, .str f] => do pure (← textOf n, ← factoryOf f)
+      | _ => throw "bad ordered entry"
+    let kw ← (← arrOf (← getField j "kw")).mapM fun e =>
+      match e with
+      | .arr #[n, v] => do pure (← textOf n, ← kwValOf v)
+      | _ => throw "bad kw entry"
+    let c ← ctxOf (← getField j "ctx")
+    let r ← reqOf (← getField j "req")
+    match make E ordered kw with
+    | .error e => pure (Json.mkObj [("err", errJson e)])
+    | .ok m =>
+      let res := match evalAll E m.preds c r with
+        | .error e => Json.mkObj [("err", errJson e)]
+        | .ok (b, c', n) => Json.mkObj [("ok", Json.arr #[toJson b, jCtx c', toJson n, toJson ((m.preds.take n).filterMap custFn)])]
+      pure (Json.mkObj [("order", toJson m.order), ("pre", jText m.pre),
+                        ("texts", Json.arr (m.preds.map (jText ∘ text)).toArray),
+                        ("phashes", Json.arr (m.preds.map (jText ∘ phash)).toArray), ("eval", res)])
+  | _ => throw s!"unknown op {op}"
+
+end DrvX06
+
+def main : IO Unit := DrvX06.main
